@@ -322,7 +322,10 @@ func (table *Table) DelAggregator(id int) error {
 
 	agg := conf.aggregators[id]
 	fmt.Println("len", len(conf.aggregators))
-	conf.aggregators = append(conf.aggregators[:id], conf.aggregators[id+1:]...)
+	// build a new slice: the published one may still be in use by dispatchers
+	aggregators := make([]*aggregator.Aggregator, 0, len(conf.aggregators)-1)
+	aggregators = append(aggregators, conf.aggregators[:id]...)
+	conf.aggregators = append(aggregators, conf.aggregators[id+1:]...)
 	fmt.Println("len", len(conf.aggregators))
 	agg.Shutdown()
 	table.config.Store(conf)
@@ -336,7 +339,10 @@ func (table *Table) DelBlacklist(index int) error {
 	if index >= len(conf.blacklist) {
 		return fmt.Errorf("Invalid index %d", index)
 	}
-	conf.blacklist = append(conf.blacklist[:index], conf.blacklist[index+1:]...)
+	// build a new slice: the published one may still be in use by dispatchers
+	blacklist := make([]*matcher.Matcher, 0, len(conf.blacklist)-1)
+	blacklist = append(blacklist, conf.blacklist[:index]...)
+	conf.blacklist = append(blacklist, conf.blacklist[index+1:]...)
 	table.config.Store(conf)
 	return nil
 }
@@ -359,7 +365,10 @@ func (table *Table) DelRewriter(id int) error {
 		return fmt.Errorf("Invalid index %d", id)
 	}
 
-	conf.rewriters = append(conf.rewriters[:id], conf.rewriters[id+1:]...)
+	// build a new slice: the published one may still be in use by dispatchers
+	rewriters := make([]rewriter.RW, 0, len(conf.rewriters)-1)
+	rewriters = append(rewriters, conf.rewriters[:id]...)
+	conf.rewriters = append(rewriters, conf.rewriters[id+1:]...)
 	table.config.Store(conf)
 	return nil
 }
@@ -382,7 +391,10 @@ func (table *Table) DelRoute(key string) error {
 		return nil
 	}
 
-	conf.routes = append(conf.routes[:toDelete], conf.routes[toDelete+1:]...)
+	// build a new slice: the published one may still be in use by dispatchers
+	// (the full slice expression leaves no capacity, so append has to allocate)
+	routes := append(conf.routes[:0:0], conf.routes[:toDelete]...)
+	conf.routes = append(routes, conf.routes[toDelete+1:]...)
 	table.config.Store(conf)
 
 	err := route.Shutdown()
